@@ -57,6 +57,69 @@ def worker(arg):
     return dc.run_case("C06", seed, souffle, variants, cfg_fn=cfg_fn, probe=probe, baseline_args=["-j4"])
 
 
+COMPILED_SKIPS = [x for x in SKIPPABLE if x not in ("TupleIdTransformer", "HoistConditionsTransformer")]
+
+
+def compiled_worker(arg):
+    """the same property for generated code: `souffle -o` with the full RAM pipeline and with one pass skipped (the skip acts when
+    the code is generated), both executables run at -j4"""
+    seed, souffle = arg
+    from . import compiled
+    from gen import progen, dl
+    rng = random.Random(seed)
+    prog = progen.generate(seed, cfg_fn(rng))
+    text = dl.fmt_program(prog)
+    rec = dict(seed=seed, hash=runner.prog_hash(text), features=sorted(prog.features) + ["compiled"], counts={})
+    d = runner.case_dir("C06", seed)
+    rec["dir"] = d
+    runner.write_case(d, prog, text=text)
+    r, ck = compiled.build_exe(souffle, d, exe="exe_full", jobs=4)
+    if ck is not None or r.rc != 0:
+        rec.update(status="skip", reason="compile-failed (C02)")
+        return rec
+    rb, ck = compiled.run_exe(d, exe="exe_full", outdir="cfull", jobs=4)
+    base, problems = runner.read_outputs(d, prog, outdir="cfull") if (ck is None and rb.rc == 0) else ({}, ["x"])
+    if problems:
+        rec.update(status="skip", reason="compiled-baseline-failed (C02)")
+        return rec
+    skip = rng.choice(COMPILED_SKIPS)
+    viols = []
+    tags = dc.shape_tags(prog)
+    T = ("|" + ",".join(tags)) if tags else ""
+    r = runner.run_souffle(souffle, d, args=["-o", "exe_skip", "-j4"], env_extra={"SOUFFLE_VERIF_SKIP_RAM": skip}, timeout=900)
+    ck = runner.crash_key(r)
+    rec["counts"]["compiles"] = 2
+    if ck is not None:
+        viols.append(("compiled-skip=%s:crash:%s%s" % (skip, ck, T), "souffle -o with %s skipped died (%s)\n%s\n%s" % (skip, ck, r.err[-2000:], text)))
+    elif r.rc != 0:
+        viols.append(("compiled-skip=%s:compile-error%s" % (skip, T), "code generated with %s skipped does not compile\n%s\n%s" % (skip, r.err[-1500:], text)))
+    else:
+        rr, ck = compiled.run_exe(d, exe="exe_skip", outdir="cskip", jobs=4)
+        if ck is not None:
+            viols.append(("compiled-skip=%s:crash:%s%s" % (skip, ck, T), "the executable generated with %s skipped died (%s)\n%s\n%s" % (skip, ck, rr.err[-2000:], text)))
+        elif rr.rc != 0:
+            viols.append(("compiled-skip=%s:error-exit%s" % (skip, T), "the executable generated with %s skipped exited with %s\n%s" % (skip, rr.rc, text)))
+        else:
+            outs, problems = runner.read_outputs(d, prog, outdir="cskip")
+            for pb in problems:
+                viols.append(("compiled-skip=%s:output:%s%s" % (skip, pb.split(" ")[0], T), pb + "\n" + text))
+            diffs = runner.diff_outputs(prog, outs, base, ("skip " + skip, "full pipeline"))
+            if diffs:
+                viols.append(("compiled-skip=%s:wrong-result%s" % (skip, T), "compiled outputs change when %s is skipped:\n  %s\n%s" % (skip, "\n  ".join(diffs), text)))
+            rec["counts"]["effective:compiled-skip=" + skip] = 1
+            rec["nontrivial"] = any(len(v) for k, v in base.items() if not k.startswith("e"))
+    if viols:
+        rec.update(status="viol", viols=viols[:3], program=text)
+    else:
+        rec.update(status="ok", sample=None)
+    return rec
+
+
+def any_worker(arg):
+    kind, seed, souffle = arg
+    return compiled_worker((seed, souffle)) if kind == "compiled" else worker((seed, souffle))
+
+
 def check(tier, seed):
     t = pc.trees("plain", "san")
     n = 160 if tier == "quick" else 960
@@ -64,8 +127,11 @@ def check(tier, seed):
     res = Result("exploration")
     res.rule = RULE
     base = seed * 1000000 + (0 if tier == "quick" else 50000) + 600000
-    recs = runner.pmap(worker, [(base + i, t["plain"]) for i in range(n)] + [(base + n + i, t["san"]) for i in range(nsan)])
+    ncomp = 6 if tier == "quick" else 72
+    jobs = [("compiled", base + 900000 + i, t["plain"]) for i in range(ncomp)]
+    jobs += [("interp", base + i, t["plain"]) for i in range(n)] + [("interp", base + n + i, t["san"]) for i in range(nsan)]
+    recs = runner.pmap(any_worker, jobs)
     dc.finish("C06", recs, res, n)
-    res.assumptions = ["interpreter only; compiled code is not exercised by this check",
+    res.assumptions = ["compiled code: a compile-bound sample (6 quick / 72 thorough programs, one random pass skipped each; TupleId and HoistConditions skips are left to the interpreter part, where they are recorded findings)",
                        "programs are samples of the generator's distribution"]
     return res
